@@ -28,6 +28,8 @@ type UDPFront struct {
 	// answered any more and OnRunaway is called (0: no cap).
 	MaxAttempts int
 	OnRunaway   func()
+	// Received counts every datagram read from the socket.
+	Received int
 	// Panic is the first panic raised by the environment while answering.
 	Panic any
 }
@@ -42,6 +44,13 @@ func (t *Transport) ListenUDP() (*UDPFront, error) {
 	f.wg.Add(1)
 	go f.serve()
 	return f, nil
+}
+
+// Seen returns how many datagrams the front has read so far.
+func (f *UDPFront) Seen() int {
+	f.mu.Lock()
+	defer f.mu.Unlock()
+	return f.Received
 }
 
 func (f *UDPFront) Addr() string { return f.conn.LocalAddr().String() }
@@ -66,6 +75,7 @@ func (f *UDPFront) serve() {
 		}
 		req := append([]byte{}, buf[:n]...)
 		f.mu.Lock()
+		f.Received++
 		t := f.t
 		for _, d := range f.late {
 			f.conn.WriteToUDP(d.B, from)
